@@ -25,6 +25,9 @@ type coll interface {
 	Has(k string) bool
 	Len() int
 	Each() string // "k=v,k=v" in iteration order
+	EachReverse() string
+	MapInc()               // Map: increments every value under the write lock
+	Find(min int) string   // key of the first entry (in order) whose value is >= min, or "none"
 	JSONKeys() string
 }
 
@@ -57,6 +60,22 @@ func (c serversColl) Each() string {
 	return strings.Join(p, ",")
 }
 func (c serversColl) JSONKeys() string { return jsonKeys(c.m) }
+func (c serversColl) EachReverse() string {
+	var p []string
+	_ = c.m.EachReverse(func(k string, v *catalog.Server) error { p = append(p, string(k)+"="+v.Annotation); return nil })
+	return strings.Join(p, ",")
+}
+func (c serversColl) MapInc() {
+	_ = c.m.Map(func(k string, v *catalog.Server) (*catalog.Server, error) { return &catalog.Server{Annotation: itoa(atoi(v.Annotation) + 1)}, nil })
+}
+func (c serversColl) Find(min int) string {
+	it, ok := c.m.Find(func(k string, v *catalog.Server) bool { return atoi(v.Annotation) >= min })
+	if !ok {
+		return "none"
+	}
+	return string(it.Key)
+}
+
 
 type typesColl struct{ m *catalog.UserTypes }
 
@@ -82,6 +101,22 @@ func (c typesColl) Each() string {
 	return strings.Join(p, ",")
 }
 func (c typesColl) JSONKeys() string { return "" } // values hold schemas without notation: not serialisable here
+func (c typesColl) EachReverse() string {
+	var p []string
+	_ = c.m.EachReverse(func(k string, v *catalog.UserType) error { p = append(p, string(k)+"="+v.Annotation); return nil })
+	return strings.Join(p, ",")
+}
+func (c typesColl) MapInc() {
+	_ = c.m.Map(func(k string, v *catalog.UserType) (*catalog.UserType, error) { return &catalog.UserType{Annotation: itoa(atoi(v.Annotation) + 1)}, nil })
+}
+func (c typesColl) Find(min int) string {
+	it, ok := c.m.Find(func(k string, v *catalog.UserType) bool { return atoi(v.Annotation) >= min })
+	if !ok {
+		return "none"
+	}
+	return string(it.Key)
+}
+
 
 type rulesColl struct{ m *catalog.UserRules }
 
@@ -107,6 +142,22 @@ func (c rulesColl) Each() string {
 	return strings.Join(p, ",")
 }
 func (c rulesColl) JSONKeys() string { return jsonKeys(c.m) }
+func (c rulesColl) EachReverse() string {
+	var p []string
+	_ = c.m.EachReverse(func(k string, v *catalog.UserRule) error { p = append(p, string(k)+"="+v.Annotation); return nil })
+	return strings.Join(p, ",")
+}
+func (c rulesColl) MapInc() {
+	_ = c.m.Map(func(k string, v *catalog.UserRule) (*catalog.UserRule, error) { return &catalog.UserRule{Annotation: itoa(atoi(v.Annotation) + 1)}, nil })
+}
+func (c rulesColl) Find(min int) string {
+	it, ok := c.m.Find(func(k string, v *catalog.UserRule) bool { return atoi(v.Annotation) >= min })
+	if !ok {
+		return "none"
+	}
+	return string(it.Key)
+}
+
 
 type tagsColl struct{ m *catalog.Tags }
 
@@ -134,6 +185,22 @@ func (c tagsColl) Each() string {
 	return strings.Join(p, ",")
 }
 func (c tagsColl) JSONKeys() string { return jsonKeys(c.m) }
+func (c tagsColl) EachReverse() string {
+	var p []string
+	_ = c.m.EachReverse(func(k catalog.TagName, v *catalog.Tag) error { p = append(p, string(k)+"="+v.Title); return nil })
+	return strings.Join(p, ",")
+}
+func (c tagsColl) MapInc() {
+	_ = c.m.Map(func(k catalog.TagName, v *catalog.Tag) (*catalog.Tag, error) { return catalog.NewTag(string(k), itoa(atoi(v.Title)+1)), nil })
+}
+func (c tagsColl) Find(min int) string {
+	it, ok := c.m.Find(func(k catalog.TagName, v *catalog.Tag) bool { return atoi(v.Title) >= min })
+	if !ok {
+		return "none"
+	}
+	return string(it.Key)
+}
+
 
 type dirsColl struct{ m *directive.Directives }
 
@@ -162,6 +229,22 @@ func (c dirsColl) Each() string {
 	return strings.Join(p, ",")
 }
 func (c dirsColl) JSONKeys() string { return "" }
+func (c dirsColl) EachReverse() string {
+	var p []string
+	_ = c.m.EachReverse(func(k string, v *directive.Directive) error { p = append(p, string(k)+"="+v.Annotation); return nil })
+	return strings.Join(p, ",")
+}
+func (c dirsColl) MapInc() {
+	_ = c.m.Map(func(k string, v *directive.Directive) (*directive.Directive, error) { return mkDir(atoi(v.Annotation) + 1), nil })
+}
+func (c dirsColl) Find(min int) string {
+	it, ok := c.m.Find(func(k string, v *directive.Directive) bool { return atoi(v.Annotation) >= min })
+	if !ok {
+		return "none"
+	}
+	return string(it.Key)
+}
+
 
 func jsonKeys(m json.Marshaler) string {
 	b, err := m.MarshalJSON()
@@ -256,7 +339,7 @@ type omapObs struct {
 	Panic  string  `json:"panic,omitempty"`
 }
 
-var opNames = []string{"Set", "Set", "SetToTop", "Update", "Update", "Get", "Has", "Len", "Each", "JSON"}
+var opNames = []string{"Set", "Set", "SetToTop", "Update", "Update", "Get", "Has", "Len", "Each", "JSON", "EachReverse", "Map", "Find"}
 
 func cmdOmap(line []byte, emit func(interface{})) {
 	var c omapCase
@@ -349,6 +432,13 @@ func cmdOmap(line []byte, emit func(interface{})) {
 						res = m.Each()
 					case "JSON":
 						res = m.JSONKeys()
+					case "EachReverse":
+						res = m.EachReverse()
+					case "Map":
+						m.MapInc()
+						res = "ok"
+					case "Find":
+						res = m.Find(v)
 					}
 					rec(event{Seq: atomic.AddInt64(&seq, 1), E: "ret", T: g + 1, R: res})
 				}
